@@ -203,6 +203,7 @@ def main(argv=None):
             return 3
         return code
 
+    os.environ["VERIF_TIER"] = a.tier
     batch_seed = int(os.environ.get("VERIF_SEED", "0"))
     qb, tb = BUDGET.get(prop, BUDGET["default"])
     budget = float(os.environ.get("VERIF_BUDGET_S", qb if a.tier == "quick" else tb))
